@@ -31,6 +31,8 @@ pub enum LOp {
     /// clone handle h into a new handle (appended to the thread's handle list)
     Clone { h: usize },
     Drop { h: usize },
+    /// the handle is dropped while the thread unwinds from a panic (caught inside the operation)
+    PanicDrop { h: usize },
     /// local vectors only
     Remove { h: usize, t: usize },
     /// read the local handle's own getters
@@ -50,6 +52,37 @@ pub struct LocalPlan {
     pub signed: bool,
     /// every thread starts with one local handle (index 0)
     pub threads: Vec<Vec<LOp>>,
+    /// histogram kinds: bucket bounds 2^b (and -(2^b) in signed plans); empty = one bucket le=1e300
+    #[serde(default)]
+    pub bound_bits: Vec<u8>,
+    /// threads end by panicking: the remaining handles are dropped by unwinding
+    #[serde(default)]
+    pub panic_end: bool,
+}
+fn bounds_of(plan: &LocalPlan) -> Vec<f64> {
+    if plan.bound_bits.is_empty() {
+        return vec![1e300];
+    }
+    let mut b: Vec<f64> = plan.bound_bits.iter().map(|b| (1u64 << b) as f64).collect();
+    if plan.signed {
+        let neg: Vec<f64> = b.iter().map(|x| -x).collect();
+        b.extend(neg);
+    }
+    b.sort_by(|a, b| a.partial_cmp(b).unwrap());
+    b.dedup();
+    b
+}
+struct InjectedPanic;
+fn drop_while_unwinding<T>(x: T) {
+    let r = std::panic::catch_unwind(std::panic::AssertUnwindSafe(move || {
+        let _x = x;
+        std::panic::resume_unwind(Box::new(InjectedPanic));
+    }));
+    match r {
+        Err(e) if e.is::<InjectedPanic>() => {}
+        Err(e) => std::panic::resume_unwind(e),
+        Ok(()) => unreachable!(),
+    }
 }
 const TUPLES: &[&str] = &["x", "y"];
 
@@ -93,7 +126,8 @@ fn gen_plan(seed: u64) -> LocalPlan {
                     nh += 1;
                     LOp::Clone { h }
                 }
-                64..=69 => LOp::Drop { h },
+                64..=67 => LOp::Drop { h },
+                68..=69 => LOp::PanicDrop { h },
                 70..=76 if is_vec && nthreads == 1 => LOp::Remove { h, t },
                 75..=82 => LOp::LocalGet { h, t },
                 83..=90 => {
@@ -132,8 +166,20 @@ fn gen_plan(seed: u64) -> LocalPlan {
     }
     let faults = r.chance(40);
     let env = Env::swarm(&mut r, nthreads, nops as u64 * 6 + 10, faults);
-    let signed = matches!(kind, SharedKind::Histogram | SharedKind::HistogramVec) && r.chance(40);
-    LocalPlan { env, kind, signed, threads }
+    let is_hist = matches!(kind, SharedKind::Histogram | SharedKind::HistogramVec);
+    let signed = is_hist && r.chance(40);
+    // bounds that coincide with observed values (weights start at 2^8)
+    let bound_bits: Vec<u8> = if is_hist && r.chance(50) {
+        let n = if r.chance(15) { 17 + r.below(8) } else { 1 + r.below(4) };
+        let mut b: Vec<u8> = (0..n).map(|_| 6 + r.below((bit as u64).saturating_sub(4).max(2)) as u8).collect();
+        b.sort();
+        b.dedup();
+        b
+    } else {
+        vec![]
+    };
+    let panic_end = r.chance(15);
+    LocalPlan { env, kind, signed, threads, bound_bits, panic_end }
 }
 
 enum Shared {
@@ -150,13 +196,21 @@ enum Loc {
     CV(LocalCounterVec),
     HV(LocalHistogramVec),
 }
-fn hopts() -> HistogramOpts {
-    HistogramOpts::new("c12_m", "help").buckets(vec![1e300])
+fn hopts(plan: &LocalPlan) -> HistogramOpts {
+    HistogramOpts::new("c12_m", "help").buckets(bounds_of(plan))
+}
+/// what a read of the shared metric shows for one child
+#[derive(Clone, Debug, PartialEq)]
+pub struct RV {
+    sum: f64,
+    count: u64,
+    buckets: Vec<(f64, u64)>,
 }
 impl Shared {
-    fn new(k: &SharedKind) -> Shared {
+    fn new(plan: &LocalPlan) -> Shared {
         let o = Opts::new("c12_m", "help");
-        match k {
+        let hopts = || hopts(plan);
+        match &plan.kind {
             SharedKind::Counter => Shared::C(Counter::with_opts(o).unwrap()),
             SharedKind::IntCounter => Shared::IC(IntCounter::with_opts(o).unwrap()),
             SharedKind::Histogram => Shared::H(Histogram::with_opts(hopts()).unwrap()),
@@ -182,9 +236,8 @@ impl Shared {
             Shared::HV(c) => c.with_label_values(&[TUPLES[t]]).observe(hv),
         }
     }
-    /// value per tuple ("" for scalar kinds); histograms: (sum, count); a histogram whose only bucket
-    /// (le=1e300) does not hold every observation is reported with count u64::MAX
-    fn read(&self) -> BTreeMap<String, (f64, u64)> {
+    /// value per tuple ("" for scalar kinds)
+    fn read(&self) -> BTreeMap<String, RV> {
         let mfs = match self {
             Shared::C(c) => c.collect(),
             Shared::IC(c) => c.collect(),
@@ -197,9 +250,9 @@ impl Shared {
         for m in &f.metrics {
             let key = m.labels.iter().find(|(k, _)| k == "l").map(|(_, v)| v.clone()).unwrap_or_default();
             let v = match (&m.counter, &m.hist) {
-                (Some(c), _) => (*c, 0),
-                (_, Some(h)) => (h.sum, if h.buckets.iter().all(|b| b.1 == h.count) { h.count } else { u64::MAX }),
-                _ => (f64::NAN, 0),
+                (Some(c), _) => RV { sum: *c, count: 0, buckets: vec![] },
+                (_, Some(h)) => RV { sum: h.sum, count: h.count, buckets: h.buckets.clone() },
+                _ => RV { sum: f64::NAN, count: 0, buckets: vec![] },
             };
             out.insert(key, v);
         }
@@ -216,27 +269,28 @@ impl Loc {
             Loc::HV(c) => c.with_label_values(&[TUPLES[t]]).observe(hv),
         }
     }
+    /// flushes twice (the second must add nothing); the second goes through the LocalMetric trait
     fn flush(&self) {
         match self {
             Loc::C(c) => {
                 c.flush();
-                c.flush()
+                prometheus::local::LocalMetric::flush(c)
             }
             Loc::IC(c) => {
                 c.flush();
-                c.flush()
+                prometheus::local::LocalMetric::flush(c)
             }
             Loc::H(c) => {
                 c.flush();
-                c.flush()
+                prometheus::local::LocalMetric::flush(c)
             }
             Loc::CV(c) => {
                 c.flush();
-                c.flush()
+                prometheus::local::LocalMetric::flush(c)
             }
             Loc::HV(c) => {
                 c.flush();
-                c.flush()
+                prometheus::local::LocalMetric::flush(c)
             }
         }
     }
@@ -284,12 +338,12 @@ enum LRes {
     None,
     Got(f64, Option<u64>),
     Removed(bool),
-    Read(BTreeMap<String, (f64, u64)>),
+    Read(BTreeMap<String, RV>),
 }
 
 fn execute(plan: &LocalPlan, mode: Mode) -> RunOut {
     let sim = new_sim(&plan.env, mode);
-    let shared = Arc::new(Shared::new(&plan.kind));
+    let shared = Arc::new(Shared::new(plan));
     let results: Results<LRes> = Arc::new(Mutex::new(vec![]));
     let keep = Keep::new();
     let is_hist = matches!(plan.kind, SharedKind::Histogram | SharedKind::HistogramVec);
@@ -299,6 +353,7 @@ fn execute(plan: &LocalPlan, mode: Mode) -> RunOut {
         let shared = shared.clone();
         let results = results.clone();
         let signed = plan.signed;
+        let panic_end = plan.panic_end;
         sim.spawn(&format!("sim{}", t), false, move |ctx| {
             // local handles are !Sync and live on their owner thread
             let mut hs: Vec<Option<Loc>> = vec![Some(shared.local())];
@@ -335,6 +390,14 @@ fn execute(plan: &LocalPlan, mode: Mode) -> RunOut {
                         }
                         LRes::None
                     }
+                    LOp::PanicDrop { h } => {
+                        if let Some(x) = hs.get_mut(*h) {
+                            if let Some(l) = x.take() {
+                                drop_while_unwinding(l);
+                            }
+                        }
+                        LRes::None
+                    }
                     LOp::Remove { h, t } => match hs.get_mut(*h) {
                         Some(Some(l)) => LRes::Removed(l.remove(*t)),
                         _ => LRes::None,
@@ -358,11 +421,15 @@ fn execute(plan: &LocalPlan, mode: Mode) -> RunOut {
             // thread end: remaining handles are dropped (local histograms flush)
             let id = op_id(t, ops.len());
             ctx.invoke(id);
-            drop(hs);
+            if panic_end {
+                drop_while_unwinding(hs);
+            } else {
+                drop(hs);
+            }
             ctx.ret(id);
         });
     }
-    let fin: Arc<Mutex<Option<BTreeMap<String, (f64, u64)>>>> = Arc::new(Mutex::new(None));
+    let fin: Arc<Mutex<Option<BTreeMap<String, RV>>>> = Arc::new(Mutex::new(None));
     {
         let shared = shared.clone();
         let fin = fin.clone();
@@ -435,7 +502,7 @@ fn execute(plan: &LocalPlan, mode: Mode) -> RunOut {
                     pend.push(if exists { Some(BTreeMap::new()) } else { None });
                     stale.push(BTreeMap::new());
                 }
-                LOp::Drop { h } => {
+                LOp::Drop { h } | LOp::PanicDrop { h } => {
                     if let Some(x) = pend.get_mut(*h) {
                         if let Some(p) = x.take() {
                             if p.values().any(|v| *v != 0) {
@@ -541,7 +608,7 @@ fn execute(plan: &LocalPlan, mode: Mode) -> RunOut {
     out
 }
 
-fn compare(plan: &LocalPlan, model: &BTreeMap<usize, u64>, got: &BTreeMap<String, (f64, u64)>, when: &str, is_vec: bool, is_hist: bool, _detached: bool, out: &mut RunOut) {
+fn compare(plan: &LocalPlan, model: &BTreeMap<usize, u64>, got: &BTreeMap<String, RV>, when: &str, is_vec: bool, is_hist: bool, _detached: bool, out: &mut RunOut) {
     let mut want: BTreeMap<String, u64> = BTreeMap::new();
     if is_vec {
         for (k, v) in model {
@@ -556,9 +623,11 @@ fn compare(plan: &LocalPlan, model: &BTreeMap<usize, u64>, got: &BTreeMap<String
         out.violations.push(Violation::new("C12/handover", "C12/children", format!("{}: shared {:?} has children {:?}, the model has {:?}", when, plan.kind, gk, wk)));
         return;
     }
+    let bounds = bounds_of(plan);
     for (k, w) in &want {
-        let (sum, cnt) = got[k];
+        let RV { sum, count: cnt, buckets } = got[k].clone();
         let want_sum = if is_hist { sum_of(*w, plan.signed) } else { *w as f64 };
+        let child = if k.is_empty() { String::new() } else { format!("{{l={:?}}}", k) };
         if sum != want_sum || (is_hist && cnt != w.count_ones() as u64) {
             let extra = if plan.signed { 0 } else { f2u(sum).map(|u| u & !*w).unwrap_or(0) };
             let missing = if plan.signed { 0 } else { f2u(sum).map(|u| *w & !u).unwrap_or(*w) };
@@ -569,7 +638,13 @@ fn compare(plan: &LocalPlan, model: &BTreeMap<usize, u64>, got: &BTreeMap<String
             } else {
                 "C12/handover"
             };
-            out.violations.push(Violation::new("C12/handover", key, format!("{}: shared {:?}{} holds {} (count {}) but direct updates plus flushed batches sum to {} (count {}; missing {:#x}, unexpected {:#x})", when, plan.kind, if k.is_empty() { String::new() } else { format!("{{l={:?}}}", k) }, sum, cnt, want_sum, w.count_ones(), missing, extra)));
+            out.violations.push(Violation::new("C12/handover", key, format!("{}: shared {:?}{} holds {} (count {}) but direct updates plus flushed batches sum to {} (count {}; missing {:#x}, unexpected {:#x})", when, plan.kind, child, sum, cnt, want_sum, w.count_ones(), missing, extra)));
+        } else if is_hist {
+            // every bucket holds exactly the delivered observations not greater than its bound
+            let want_b: Vec<(f64, u64)> = bounds.iter().map(|ub| (*ub, (0..64u8).filter(|b| *w & (1u64 << b) != 0 && val(*b, plan.signed) <= *ub).count() as u64)).collect();
+            if buckets != want_b {
+                out.violations.push(Violation::new("C12/handover", "C12/handover:buckets", format!("{}: shared {:?}{} has count and sum of the delivered observations but buckets {:?}; by value they must be {:?}", when, plan.kind, child, buckets, want_b)));
+            }
         }
     }
 }
@@ -605,7 +680,7 @@ impl Scenario for C12 {
                 let mut nh = 1;
                 ops.iter().all(|o| {
                     let h = match o {
-                        LOp::Add { h, .. } | LOp::Flush { h } | LOp::Reset { h } | LOp::Drop { h } | LOp::Remove { h, .. } | LOp::LocalGet { h, .. } => Some(*h),
+                        LOp::Add { h, .. } | LOp::Flush { h } | LOp::Reset { h } | LOp::Drop { h } | LOp::PanicDrop { h } | LOp::Remove { h, .. } | LOp::LocalGet { h, .. } => Some(*h),
                         LOp::Clone { h } => {
                             let ok = *h < nh;
                             nh += 1;
